@@ -719,10 +719,20 @@ def rand_op(rng, params):
     return [k, rng.randint(1, np_), None]
 
 
-def gen_scenario(rng, big=False):
+def gen_scenario(rng, big=False, misc_unique=False):
+    """misc_unique: at most one query per misc command in the scenario (such programs do not depend on how
+    reply callbacks are matched, so the other clauses are exercised to the end of the run)"""
     params = rand_table(rng)
     nu = rng.choice([1, 2, 2, 3, 3])
     users = [[rand_op(rng, params) for _ in range(rng.randint(1, 5 if big else 3))] for _ in range(nu)]
+    if misc_unique:
+        seen = set()
+        for u in users:
+            for op in u:
+                if op[0] in MISC:
+                    if op[0] in seen:
+                        op[0], op[2] = 'read', None
+                    seen.add(op[0])
     notifs = []
     for _ in range(rng.choice([0, 0, 1, 1, 2, 3 if big else 2])):
         p = rng.randint(1, len(params))
@@ -730,7 +740,7 @@ def gen_scenario(rng, big=False):
     kind = rng.choice(['random', 'random', 'pct', 'pct', 'burst', 'fifo', 'slowdev', 'slowdev', 'slowdev', 'slowdisp'])
     sc = {'params': params, 'updcbs': rand_updcbs(rng, params), 'users': users, 'notifs': notifs,
           'policy': [kind, rng.randrange(1 << 30)], 'crc': rng.randrange(1 << 16)}
-    if rng.random() < 0.06:
+    if rng.random() < 0.02:
         # the firmware changes a value by itself while the client is still connecting
         q = rng.choice([i + 1 for i, p in enumerate(params) if p['pers']])
         sc['connect_ntf'] = [[q, rand_typed(params[q - 1]['type'], rng)]]
@@ -806,6 +816,12 @@ def mutant_scenarios(rng, n):
                     'users': users, 'notifs': notifs,
                     'policy': [r.choice(['slowdev', 'slowdev', 'burst', 'random', 'pct', 'slowdisp']), r.randrange(1 << 30)],
                     'crc': 99})
+    # fixed schedule: a notification is dispatched while the first request is still unanswered
+    params = [P_(0x08, pers=True, init=[6], default=[5]), P_(0x08, pers=True, init=[7], default=[9])]
+    out[0] = {'params': params, 'updcbs': [[1, 'all', 0]], 'users': [[['set', 1, ival(9)], ['read', 2, None]]],
+              'notifs': [[2, [3]]], 'crc': 98,
+              'policy': ['script', ['u1', 'u1', 'u1', 'u1', 'upd', 'upd', 'upd', 'upd', 'ntf', 'disp', 'disp', 'upd', 'upd', 'upd',
+                                    'upd', 'ans', 'ans', 'disp', 'disp', 'disp', 'disp']]}
     return out
 
 
@@ -1467,7 +1483,7 @@ def main(tier, seed, replay=None):
     trace_cfg, sim_cfg = VARIANT_CFG[variant]
     out.extra['code_variant_detected'] = variant
     lap('variant probe')
-    nsim = 100 if tier == 'quick' else 1500
+    nsim = 100 if tier == 'quick' else 600
     import multiprocessing as mp
     ctx = mp.get_context('fork')
     pipe_r, pipe_w = ctx.Pipe(duplex=False)
@@ -1481,9 +1497,9 @@ def main(tier, seed, replay=None):
         if tier == 'quick':
             pairs = pairs[:len(pairs) // 3]
         scs = codec_scenarios(rng) + pairs + msc + connect_ntf_scenarios()
-        nrand = 500 if tier == 'quick' else 24000
+        nrand = 500 if tier == 'quick' else 16000
         for i in range(nrand):
-            scs.append(gen_scenario(random.Random(rng.randrange(1 << 60)), big=(i % 4 == 0)))
+            scs.append(gen_scenario(random.Random(rng.randrange(1 << 60)), big=(i % 4 == 0), misc_unique=(i % 3 != 0)))
         traces = run_scenarios(scs)
         lap('execute scenarios')
         # 4a. in-memory mutants on the sensitivity scenarios
